@@ -156,3 +156,64 @@ Proof. cbn [erase]. f_equal. apply map_ext. intros [b x]. reflexivity. Qed.
 Lemma erase_mhash q k e kvs :
   erase (CMHash (q, k, e) kvs) = AMultiHash ((k, erase e) :: map (fun kv : bool * str * cst => (snd (fst kv), erase (snd kv))) kvs).
 Proof. cbn [erase]. do 2 f_equal. apply map_ext. intros [[q' k'] x]. reflexivity. Qed.
+
+(** Syntactic categories: what may follow a dot (identifier, quoted identifier,
+    function call, [*], multi-select hash, multi-select list) and which bracketed
+    forms may follow a projection (index, slice, list wildcard, filter).  They
+    constrain the leftmost constituent of the operand. *)
+Fixpoint head (c : cst) : cst :=
+  match c with
+  | CBin _ l _ | CDot l _ | CDotStar l _ | CIndex l _ | CSlice l _ _ _ | CWild l _ | CFlatten l _ | CFilter l _ _ => head l
+  | _ => c
+  end.
+
+Definition dot_ok (h : cst) : bool :=
+  match h with CIdent _ | CQIdent _ | CCall _ _ _ | CStarP _ | CMHash _ _ | CMList _ _ => true | _ => false end.
+Definition brk_ok (h : cst) : bool :=
+  match h with CIndexP _ | CSliceP _ _ _ | CWildP _ | CFilterP _ _ => true | _ => false end.
+
+(** well-formed syntax trees: the trees of the JMESPath grammar *)
+Fixpoint wf (c : cst) : Prop :=
+  match c with
+  | CCurrent | CIdent _ | CQIdent _ | CLit _ | CIndexP _ => True
+  | CNot x | CParen x => wf x
+  | CMList e es => wf e /\ (fix all (es : list cst) : Prop := match es with [] => True | x :: r => wf x /\ all r end) es
+  | CMHash (_, _, e) kvs =>
+      wf e /\ (fix all (kvs : list (bool * str * cst)) : Prop := match kvs with [] => True | (_, _, x) :: r => wf x /\ all r end) kvs
+  | CCall _ _ args => (fix all (args : list (bool * cst)) : Prop := match args with [] => True | (_, x) :: r => wf x /\ all r end) args
+  | CStarP k | CFlattenP k | CWildP k | CSliceP _ _ k => wfk k
+  | CFilterP p k => wf p /\ wfk k
+  | CBin _ l r => wf l /\ wf r
+  | CDot l d => wf l /\ wf d /\ dot_ok (head d) = true
+  | CDotStar l k => wf l /\ wfk k
+  | CIndex l _ => wf l
+  | CSlice l _ _ k | CWild l k | CFlatten l k => wf l /\ wfk k
+  | CFilter l p k => wf l /\ wf p /\ wfk k
+  end
+with wfk (k : cont) : Prop :=
+  match k with
+  | KNone => True
+  | KDot d => wf d /\ dot_ok (head d) = true
+  | KExpr x => wf x /\ brk_ok (head x) = true
+  end.
+
+Lemma wf_mlist e es : wf (CMList e es) <-> wf e /\ Forall wf es.
+Proof.
+  cbn [wf]. split; intros [H1 H2]; (split; [exact H1|]).
+  - induction es as [|x r IH]; [constructor|]. destruct H2 as [Hx Hr]. constructor; [exact Hx|exact (IH Hr)].
+  - induction H2 as [|x r Hx Hr IH]; [exact I|]. split; [exact Hx|exact IH].
+Qed.
+
+Lemma wf_mhash q k e kvs : wf (CMHash (q, k, e) kvs) <-> wf e /\ Forall (fun kv : bool * str * cst => wf (snd kv)) kvs.
+Proof.
+  cbn [wf]. split; intros [H1 H2]; (split; [exact H1|]).
+  - induction kvs as [|[[q' k'] x] r IH]; [constructor|]. destruct H2 as [Hx Hr]. constructor; [exact Hx|exact (IH Hr)].
+  - induction H2 as [|[[q' k'] x] r Hx Hr IH]; [exact I|]. split; [exact Hx|exact IH].
+Qed.
+
+Lemma wf_call off name args : wf (CCall off name args) <-> Forall (fun a : bool * cst => wf (snd a)) args.
+Proof.
+  cbn [wf]. split; intros H.
+  - induction args as [|[b x] r IH]; [constructor|]. destruct H as [Hx Hr]. constructor; [exact Hx|exact (IH Hr)].
+  - induction H as [|[b x] r Hx Hr IH]; [exact I|]. split; [exact Hx|exact IH].
+Qed.
